@@ -11,10 +11,14 @@ RUN_MODULE = "RunC10"
 DRIVER = "lookup_driver.py"
 SHARD = 250
 MAX_DRIVER_SHARDS = 6
-RULE = ("one case = one history of saves (categories Op/OpX/Op_Y/O/Op_, re-saves, metadata with absent keys and the "
-        "incomplete flag True/False/None/absent) on the three real cassettes + one lookup (category, filter from the "
-        "C14 universe, limit, ordered/real-RNG/scripted-RNG listing, S3 key prefix, optional time window, through "
-        "iter_recording_ids or find_matching_recording_ids with skip_incomplete on/off); non-trivial = the lookup "
+RULE = ("one case = one history of saves (categories Op/OpX/Op_Y/O/Op_ or, every fifth history, categories named like "
+        "the storage layout's own literals: metadata/Op_metadata/metadata_/full/tape_recorder_recordings/p/json; re-saves, "
+        "metadata with absent keys and the incomplete flag True/False/None/absent) on the three real cassettes + one "
+        "lookup (category, filter from the C14 universe incl. every way a caller can constrain the incomplete flag "
+        "himself, limit, ordered/real-RNG/scripted-RNG listing, S3 key prefix, optional time window, through "
+        "iter_recording_ids or find_matching_recording_ids with skip_incomplete on/off); deterministic streams: prefix "
+        "categories x key prefixes, layout-literal categories x key prefixes x (plain / filter / window), flag values x "
+        "lookups, caller's flag filters x default lookup, day folders x limits x merge schedules; non-trivial = the lookup "
         "selects a non-empty proper subset of the stored recordings; distinct = distinct (history, lookup)")
 EXHAUSTIVE = {"quick": False, "thorough": False}
 ASSUMPTIONS = [
@@ -26,7 +30,8 @@ ASSUMPTIONS = [
     "an observation, not part of the theorem or of the count rule)",
     "cassettes_agree: metadata is JSON-native (S3 matches on json.loads of the encoded metadata)",
     "the bucket holds no foreign key under this cassette's metadata root (C15 owns confinement); sibling key "
-    "prefixes are exercised as decoys on the implementation side",
+    "prefixes are exercised as decoys on the implementation side (with a category called 'metadata' only those "
+    "siblings whose root is not inside this cassette's root: layout_decoys)",
 ]
 TRUSTED = ["fake bucket behind the real S3BasicFacade; fake clock; uuid.uuid1 replaced by the case's hex text; "
            "scripted RNG (shuffle = reverse, choice = scripted index) for random:2 cases",
